@@ -363,6 +363,8 @@ def _r084(ck, prog, cfg):
         sb_ = sends[0][0]
         mine = [h for h, (none_t, some_t, nb) in heads.items() if sb_ == some_t or sb_ in ars.reach([some_t], avoid=[h])]
         skip = lib2.iteration_skips(ars, mine[0], {sb_}) if mine else [sb_]
+        if mine:
+            lib2.whole_batch(ck, ars, mine[0], "R08.4", "checkpoint-loop-whole" + _tag(cfg), "the recovered checkpoint's entry list")
         ck.check(bool(mine) and skip is None, "R08.4", "every-checkpoint-entry-forwarded" + _tag(cfg),
                  "an entry of the recovered checkpoint can be skipped (not sent to its shard): its stamp never reaches the shard's clock and "
                  "its value is missing after the restart", ars.where(sends[0][1]["ln"]), detail="send on every path of the loop body")
